@@ -3,11 +3,10 @@
 Utilities to validate Python values against a schema / types.
 """
 
-import copy
 import json
 from typing import Any, Dict, List, Mapping, Optional, Union
 
-from .._utils import find_one
+from .._utils import copy_containers, find_one
 from ..exc import (
     CoercionError,
     InvalidValue,
@@ -168,7 +167,7 @@ def _coerce_input_object(
             if field.has_default_value:
                 # A copy: the default object lives on the schema and resolvers
                 # are free to edit what they receive.
-                coerced[field.python_name] = copy.deepcopy(field.default_value)
+                coerced[field.python_name] = copy_containers(field.default_value)
             elif isinstance(field.type, NonNullType):
                 errors.append(
                     CoercionError(
@@ -243,7 +242,7 @@ def coerce_argument_values(
             arg = values[arg_name]
         except KeyError:
             if arg_def.has_default_value:
-                coerced_values[target_name] = copy.deepcopy(
+                coerced_values[target_name] = copy_containers(
                     arg_def.default_value
                 )
             elif isinstance(arg_type, NonNullType):
@@ -266,7 +265,7 @@ def coerce_argument_values(
                         )
                     coerced_values[target_name] = variables[varname]
                 elif arg_def.has_default_value:
-                    coerced_values[target_name] = copy.deepcopy(
+                    coerced_values[target_name] = copy_containers(
                         arg_def.default_value
                     )
                 elif isinstance(arg_type, NonNullType):
